@@ -33,7 +33,7 @@ def run(ctx: Ctx) -> None:
     from torch import nn
     from unit_scaling import optim as uo
     from unit_scaling.parameter import has_parameter_data
-    from unit_scaling.transforms import simulate_fp8, track_scales
+    from unit_scaling.transforms import simulate_fp8, track_scales, unit_scale
 
     torch.set_num_threads(1)
     quick = ctx.tier == "quick"
@@ -48,6 +48,22 @@ def run(ctx: Ctx) -> None:
 
         def forward(self, x):
             return x * self.p.sum()
+
+    class LinHolder(nn.Module):
+        """the parameter is the bias of a unit-scaled Linear layer (what unit_scale's bias handling touches)"""
+
+        def __init__(self, b=None):
+            super().__init__()
+            self.lin = uu.Linear(3, 4, bias=True)
+            if b is not None:
+                self.lin.bias = b
+
+        @property
+        def p(self):
+            return self.lin.bias
+
+        def forward(self, x):
+            return self.lin(x)
 
     DT = {torch.float16: "f16", torch.float32: "f32", torch.float64: "f64"}
 
@@ -83,6 +99,13 @@ def run(ctx: Ctx) -> None:
             p.requires_grad_(not p.requires_grad)
             return h
         if op == "applyTransform":
+            if isinstance(h, LinHolder) or type(h).__name__.endswith("LinHolder") or hasattr(h, "lin"):
+                # rotate over three transforms; unit_scale is documented to precede track_scales, so it is not applied after it
+                tracked = any(type(b_).__name__.startswith("ScaleTracking") for b_ in getattr(h, "backends", []))
+                choice = (step_i + 2) % 3
+                if choice == 2 and not tracked:
+                    return unit_scale(h)
+                return (simulate_fp8 if choice == 0 else track_scales)(h)
             return (simulate_fp8 if step_i % 2 == 0 else track_scales)(h)
         raise KeyError(op)
 
@@ -113,18 +136,24 @@ def run(ctx: Ctx) -> None:
     setattr(sys.modules[__name__], "Holder", Holder)
     Holder.__qualname__ = "Holder"
     Holder.__module__ = __name__
+    setattr(sys.modules[__name__], "LinHolder", LinHolder)
+    LinHolder.__qualname__ = "LinHolder"
+    LinHolder.__module__ = __name__
 
+    plans_h = [(t_, d_, l_, "attr") for (t_, d_, l_) in plans] + [("bias", None, 2 if quick else 3, "linear-bias"),
+                                                                 ("bias", 7, 2, "linear-bias")]
     reqs, obs_all = [], []
-    for (tag, depth, maxlen) in plans:
+    for (tag, depth, maxlen, holder_kind) in plans_h:
         torch.manual_seed(0)
-        data0 = torch.randn(SHAPES[tag])
+        data0 = torch.randn(SHAPES[tag]) if holder_kind == "attr" else torch.zeros(4)
         orig = uu.Parameter(data0.clone(), tag, depth)
         lr0 = lr_of(orig)
         for L in range(0, maxlen + 1):
             for hist in itertools.product(OPS, repeat=L):
-                key = {"tag": tag, "depth": depth, "history": list(hist)}
+                key = {"tag": tag, "depth": depth, "history": list(hist), **({"holder": holder_kind} if holder_kind != "attr" else {})}
                 ctx.count(key, bucket=f"len{L}")
-                h: Any = Holder(uu.Parameter(data0.clone(), tag, depth))
+                h: Any = Holder(uu.Parameter(data0.clone(), tag, depth)) if holder_kind == "attr" else \
+                    LinHolder(uu.Parameter(data0.clone(), tag, depth))
                 want_rg = True
                 prec = torch.float32
                 trace = []
@@ -191,7 +220,7 @@ def run(ctx: Ctx) -> None:
                         fails.append(f"tags changed: {p.mup_type}, {p.mup_scaling_depth}")
                 if not isinstance(p, nn.Parameter):
                     fails.append("no longer an nn.Parameter")
-                if dict(h.named_parameters()).get("p") is not p:
+                if not any(q is p for q in h.parameters()):
                     fails.append("not registered as a module parameter")
                 if p.requires_grad != want_rg:
                     fails.append(f"requires_grad is {p.requires_grad}, expected {want_rg}")
